@@ -12,58 +12,74 @@ from ..ref import geom, units
 
 PROPERTY = "C18"
 RULE = (
-    "Hypothesis draws a cylinder (axis from classes: uniform on the sphere, +z, -z, negative "
-    "z-component, within 1e-13..1e-3 of +/-z, +/-x, +/-y, in the xy-plane, barely above/below it, "
-    "Pythagorean few-bit axes), radius and height log-uniform over 1e-3..1e3 in m/mm/cm, base at the "
-    "origin or up to 1e3 sizes away. path_length: 1-4 rays built in the cylinder's own frame "
-    "(start: centre / on the axis / inside / mantle, cap or rim -+1e-14..1e-3 / near outside / far "
-    "outside; direction: generic / aimed at an interior point / away / +-axis / 1e-13..1e-3 off the "
-    "axis / perpendicular / exactly perpendicular / tangent to the mantle +-1e-14..1e-4 / aimed at "
-    "the rim), passed as scalar, 1-d or outer-product arrays; the solid is also described from its "
-    "other end and moved by a random rotation + translation; oracle: ray/cylinder intersection in a "
-    "Gram-Schmidt frame, 50-digit mpmath on the stored inputs. quadrature: every deterministic kind; "
-    "oracle: membership, positivity, analytic moments of monomials up to degree 3 in the same frame. "
-    "transmission_exact: number densities 0 < n1 < n2 and 1-3 wavelengths, detectors 0.1..100 sizes "
-    "away; transmission/transmission_negz: bundled or synthetic material with mu*size in 0.01..3, "
-    "beam and 1-3 detectors in generic / forward / backward / axial / perpendicular directions, "
-    "compared with a 32x128x32 product-Gauss reference and with the same set-up moved rigidly or "
-    "described from the other end. Facets *_negz contain every configuration in which some axis "
-    "has a negative z-component (known rotation defect); the other quadrature/transmission facets "
-    "exclude them by construction. Non-trivial: path_length - some ray has positive reference "
-    "length; quadrature - always (every case is a distinct cylinder/kind); transmission - "
-    "mu*size >= 0.05 so that T differs measurably from 1; distinct = distinct descriptor hash."
+    "Hypothesis draws a cylinder (axis classes: uniform on the upper / lower hemisphere, +z, -z, "
+    "within 1e-13..1e-3 of +/-z, closer to -z than 3e-11, +/-x, +/-y, in the xy-plane, 1e-13..1e-3 "
+    "above / below it, Pythagorean few-bit axes of either sign), radius and height log-uniform over "
+    "1e-3..1e3 in m/mm/cm, base at the origin or up to 1e3 sizes away. path_length: 1-4 rays built "
+    "in the cylinder's own frame (start: centre / on the axis / inside / mantle, cap or rim "
+    "-+1e-14..1e-3 / near outside / far outside; direction: generic / aimed at an interior point / "
+    "away / bit-identical to +-axis / 1e-14..1e-3 off the axis / perpendicular / exactly "
+    "perpendicular / tangent to the mantle +-1e-15..1e-4 / aimed at the rim), passed as scalar, 1-d "
+    "or outer-product arrays; the solid is also described from its other end and everything is moved "
+    "by a random rotation + translation; oracle: ray/cylinder intersection in a Gram-Schmidt frame, "
+    "50-digit mpmath on the stored inputs. quadrature: every deterministic kind; oracle: membership, "
+    "positivity, analytic moments of all monomials up to degree 3 in the same frame. "
+    "transmission_exact: number densities 0 < n1 < n2 (mu*size 1e-3..3), 1-3 wavelengths in 0.1..20 A, "
+    "1-4 detectors 0.1..100 sizes away. transmission / transmission_negz: bundled or synthetic "
+    "material with mu*size in 0.01..3, beam and 1-3 detectors in generic / forward / backward / axial / "
+    "perpendicular directions 2..100 sizes away, compared with a 32x128x32 product-Gauss reference "
+    "and with the same set-up moved rigidly or described from the other end. Known-finding regions "
+    "are generated only by their own facets (path_near_parallel: rays a rounding error to 3e-3 rad "
+    "off the axis without being bit-identical to it; path_subnormal_direction: n.a subnormal; "
+    "*_negz: some described axis has a negative z-component) and are excluded from the other facets "
+    "by construction (counted under the label 'excluded:...'). Non-trivial: path facets - some "
+    "compared ray has positive exact length (path_near_parallel: such a ray inside the finding "
+    "region); quadrature - every case (distinct cylinder x kind); transmission_exact - attenuation "
+    "resolved (1 - T > 1e-6); transmission - mu*size >= 0.05; distinct = distinct descriptor hash."
 )
 
 TOLERANCES = {
-    "path_abs_over_scale": 1e-9,
-    "path_abs_over_scale_tangent(|1-(d/r)^2|<1e-10)": 1e-4,
-    "path_backward_perturbation_over_scale": 1e-13,
-    "points_inside_slack_over_max(r,h)": 1e-9,
-    "sum_weights_rel": 1e-6,
-    "first_moment_normalised": 1e-6,
-    "moment_deg2_3_cheap_normalised": 1e-9,
-    "moment_deg2_3_medium_expensive_normalised": 1e-2,
-    "T_upper_bound_excess": 1e-6,
-    "T_zero_density": 1e-6,
-    "T_rel_accuracy_c_kind*max(mu*size,0.1)": {"cheap": 0.13, "medium": 0.05, "expensive": 0.03},
-    "T_invariance": "2 x accuracy tolerance",
+    "path: |got - exact| / scale, scale = max(r, h, |base|_inf, |start|_inf)": 1e-9,
+    "path: same, when |1 - (line-axis distance / r)^2| < 1e-10 (tangent)": 1e-4,
+    "path: backward perturbation of start (x scale) and direction accepted": 1e-13,
+    "path: worst error measured on well-conditioned rays / scale": 9.3e-15,
+    "quadrature: points inside, slack / max(r, h)": 1e-9,
+    "quadrature: |sum(w)/V - 1| (measured 8.5e-8: 8-digit tables)": 1e-6,
+    "quadrature: degree-1 monomial means (measured 9e-10)": 1e-6,
+    "quadrature: degree 2-3, cheap": "1e-9 + 2e-7 rad * aspect / 3 (+ representation noise of far-away points)",
+    "quadrature: degree 2-3, medium/expensive (accuracy only; measured max 5.9e-3 at 7 nodes)": 3e-2,
+    "transmission: T <= 1 + x and |T(n=0) - 1| <= x": 1e-6,
+    "transmission: |T/T_ref - 1| <= c_kind * max(mu*size, 0.1), size = max(2r, h)":
+        {"cheap": 0.13, "medium": 0.05, "expensive": 0.03},
+    "transmission: measured worst |T/T_ref - 1| / max(mu*size, 0.1)":
+        {"cheap": 0.0082, "medium": 0.0054, "expensive": 0.0013},
+    "transmission: rigid motion / other end": "2 x accuracy tolerance",
 }
 ASSUMPTIONS = [
-    "directions and axes are unit vectors up to rounding (the API takes a 'direction'; lengths are "
-    "only lengths for unit directions); base, radius, height and start points share one length unit "
-    "(mixed units raise UnitError in scipp arithmetic)",
-    "a result within 1e-9*scale of the exact length for SOME input within 1e-13*scale of the stored "
-    "one is accepted (backward-error view): at jump discontinuities of the length (ray in a cap "
-    "plane, parallel ray on the mantle) either side is correct",
-    "'sum to its volume' and 'T = 1 without attenuation' are enforced to 1e-6 relative: the "
-    "tabulated disk rules disk55/disk256_cheb carry 8 digits (sum(w)/V-1 = -3.3e-8 / +8.5e-8)",
+    "directions and axes are unit vectors up to rounding (the API takes a 'direction'; t-intervals "
+    "are lengths only then); base, radius, height and start points share one length unit (mixed "
+    "units raise UnitError in scipp arithmetic); detectors and wavelengths may use other units",
+    "a reported length within 1e-9*scale of the exact length for SOME input within 1e-13*scale of "
+    "the stored one is accepted (backward-error view): at jump discontinuities of the length (ray "
+    "in a cap plane, parallel ray on the mantle) either side is correct",
+    "'sum to its volume', 'T <= 1' and 'T = 1 without attenuation' are enforced to 1e-6 relative: "
+    "the tabulated disk rules disk55 / disk256_cheb carry 8 digits (sum(w)/V - 1 = -3.3e-8 / "
+    "+8.5e-8, hence T(n=0) = 1.0000000848 for 'expensive')",
     "'integrate low-degree polynomials exactly' is enforced as degree <= 1 for every kind and "
-    "degree <= 3 for 'cheap' (DESIGN narrowing: medium/expensive use rescaled Chebyshev nodes)",
+    "degree <= 3 for 'cheap' (DESIGN narrowing: medium/expensive use rescaled Chebyshev nodes); for "
+    "'cheap' the rule may be tilted against the solid by up to 2e-7 rad: the implementation skips "
+    "the rotation below 1e-10 rad and evaluates asin next to 1 for nearly horizontal axes (measured "
+    "tilt up to 1.5e-8 rad for 0 < |a_z| < 1e-7)",
     "the 'mc' kind is random and excluded; materials whose bundled cross-sections carry variances "
     "(Cd, Gd, B, 3He, ...) are not generated: compute_transmission_map raises scipp's "
     "VariancesError for them (broadcast of a value with variances), which C18 does not speak about",
     "accuracy/invariance facets keep detectors >= 2 sizes from the centre and aspect h/r in "
-    "0.3..10, the domain on which 'the accuracy of the quadrature' was calibrated",
+    "0.3..10, the domain on which 'the accuracy of the quadrature' was calibrated; the exact "
+    "facets use the full ranges",
+    "components of unit vectors below 1e-140 are flushed to zero in every generator except "
+    "path_subnormal_direction",
+    "the chunked branch of _integrate_transmission_fraction (points x detectors > 2e7) is not "
+    "exercised: one case needs > 3e5 detectors and several GB",
 ]
 
 LEN_UNITS = ["m", "mm", "cm"]
@@ -883,10 +899,37 @@ C_KIND = {"cheap": 0.13, "medium": 0.05, "expensive": 0.03}
 REF_NODES = (32, 128, 32)
 
 
+def exactly_collinear(u, v) -> bool:
+    """Stored vectors exactly collinear (products of doubles are exact in 50-digit arithmetic)."""
+    with mp.workdps(50):
+        a, b = [mp.mpf(c) for c in u], [mp.mpf(c) for c in v]
+        return (a[1] * b[2] - a[2] * b[1] == 0 and a[2] * b[0] - a[0] * b[2] == 0
+                and a[0] * b[1] - a[1] * b[0] == 0)
+
+
+def beam_lossy(beam, axis) -> bool:
+    """Known-finding region C18.near_parallel_ray for the incoming beam: within 1e-6 rad of the axis
+    direction without being exactly collinear with it (L_in is then reported as 0 for many points)."""
+    c = np.cross(np.asarray(beam, dtype=float), np.asarray(axis, dtype=float))
+    return float(np.sqrt(c @ c)) < 1e-6 and not exactly_collinear(beam, axis)
+
+
 @st.composite
-def transmission_cases(draw, region):
+def transmission_cases(draw, region, beam_near_axis=False):
     cyl = draw(cylinder_cases(region, aspect=(-0.5, 1.0)))
     bcls, beam = draw(beam_cases(cyl))
+    if beam_near_axis:
+        sgn = 1.0 if draw(st.booleans()) else -1.0
+        if draw(st.booleans()):
+            bcls, beam = "axial", [sgn * c for c in cyl["axis"]]      # inexact only after the motion
+        else:
+            e1, e2, _ = geom.basis_np(cyl["axis"])
+            # the failing band is tilt * r <~ eps * |base - point|
+            reach = _norm(cyl["base"]) + max(cyl["r"], cyl["h"])
+            tilt = EPS * reach / cyl["r"] * 10.0 ** draw(st.floats(-1.5, 1.5))
+            psi = draw(_PHI)
+            bcls = "near_axis"
+            beam = _normalised(_lin((sgn, cyl["axis"]), (tilt * math.cos(psi), e1), (tilt * math.sin(psi), e2)))
     det_unit, dets, dcls = draw(detector_cases(cyl, beam, 2.0, nmax=3))
     wl_unit, wls = _wavelengths(draw, 2)
     move = draw(motion_cases(_size(cyl)))
@@ -902,7 +945,7 @@ def transmission_cases(draw, region):
         "det_class": dcls, "wl_unit": wl_unit, "wavelengths": wls,
         "material": draw(material_cases()), "kind": draw(st.sampled_from(KINDS)),
         "mu_size": draw(st.one_of(st.floats(0.3, 3.0), st.floats(0.3, 3.0), logfloat(-2, 0))),
-        "move": move, "other_end": do_other_end,
+        "move": move, "other_end": do_other_end, "keep_beam_collinear": not beam_near_axis,
     }
 
 
@@ -923,6 +966,11 @@ def transmission_errors(case):
     t_det = np.asarray(mv["shift"], dtype=float) * f
     mc = moved_cylinder(cyl, mv)
     m_beam = _normalised([float(c) for c in R @ np.asarray(case["beam"], dtype=float)])
+    if case.get("keep_beam_collinear", True) and exactly_collinear(case["beam"], cyl["axis"]):
+        # a beam along the axis stays bit-identical to +-axis in the moved description
+        sgn = 1.0 if sum(case["beam"][i] * cyl["axis"][i] for i in range(3)) > 0 else -1.0
+        m_beam = [sgn * c for c in mc["axis"]]
+    out["moved_beam_lossy"] = beam_lossy(m_beam, mc["axis"])
     m_dets = [[float(c) for c in R @ np.asarray(d, dtype=float) + t_det] for d in case["detectors"]]
     Tm = _run_map(case, mc, m_beam, m_dets, n)
     out["Tm"] = Tm
@@ -935,10 +983,14 @@ def transmission_errors(case):
     return out
 
 
-def check_transmission(case):
+def check_transmission(case, include_lossy=False):
     cyl = case["cyl"]
     kind = case["kind"]
+    lossy = beam_lossy(case["beam"], cyl["axis"])
+    if lossy and not include_lossy:
+        return ["excluded:beam-near-parallel(known finding region)"], False
     res = transmission_errors(case)
+    lossy = lossy or res["moved_beam_lossy"]
     mu_size = np.asarray(res["mu_size"])[:, None]
     tol = C_KIND[kind] * np.maximum(mu_size, 0.1)
     labels = ["axis:" + cyl["axis_class"], "kind:" + kind, "material:" + case["material"]["kind"],
@@ -954,7 +1006,8 @@ def check_transmission(case):
             f"{what}: relative deviation {float(dev[idx]):.3e} > {float(np.broadcast_to(t, dev.shape)[idx]):.3e} "
             f"(kind {kind}, mu*size {float(mu_size[idx[0], 0]):.3g}, axis {cyl['axis']}); "
             f"T = {res['T'].ravel().tolist()}, reference = {res['ref'].ravel().tolist()}",
-            {k: np.asarray(v).tolist() for k, v in res.items() if k in ("T", "Tm", "To", "ref", "mu_size")},
+            {"beam_lossy": bool(lossy),
+             **{k: np.asarray(v).tolist() for k, v in res.items() if k in ("T", "Tm", "To", "ref", "mu_size")}},
         )
 
     if np.any(res["acc"] > tol):
@@ -964,7 +1017,14 @@ def check_transmission(case):
     if "other" in res and np.any(res["other"] > 2 * tol):
         fail("T-other-end", "transmission changed when the solid is described from its other end",
              res["other"], 2 * tol)
+    if include_lossy:
+        labels.append("beam_lossy:%s" % lossy)
+        return labels, bool(lossy and mu_size.max() >= 0.05)
     return labels, bool(mu_size.max() >= 0.05)
+
+
+def check_transmission_beam_near_axis(case):
+    return check_transmission(case, include_lossy=True)
 
 
 # ----------------------------------------------------------------------------- known findings
@@ -988,7 +1048,10 @@ def m_rotation_negz(case, v):
 
 def m_near_parallel(case, v):
     """beam_intersection returns 0 for rays a rounding error away from the axis direction."""
-    return v.kind == "path-length" and bool((v.details or {}).get("near_parallel_lossy"))
+    d = v.details or {}
+    if v.kind in ("T-accuracy", "T-rigid-motion", "T-other-end"):
+        return bool(d.get("beam_lossy"))
+    return v.kind == "path-length" and bool(d.get("near_parallel_lossy"))
 
 
 def m_subnormal(case, v):
@@ -1023,12 +1086,17 @@ FACETS = [
           quick=(1, 150), thorough=(4, 1000), min_nontrivial=0.5,
           doc="same oracle, axes with negative z-component (isolates the rotation defect)"),
     Facet("transmission_exact", check_exact, strategy=lambda tier: exact_cases(),
-          quick=(3, 60), thorough=(16, 400), shrink=False, min_nontrivial=0.5,
+          quick=(2, 90), thorough=(16, 400), shrink=False, min_nontrivial=0.5,
           doc="0 < T <= 1, T = 1 at zero density, strictly decreasing in density, monotone in wavelength"),
     Facet("transmission", check_transmission, strategy=lambda tier: transmission_cases("sound"),
-          quick=(4, 40), thorough=(16, 300), shrink=False, min_nontrivial=0.5,
+          quick=(3, 50), thorough=(16, 300), shrink=False, min_nontrivial=0.5,
           doc="agreement with the fine reference rule; invariance under rigid motion / other end; "
               "all axes involved have non-negative z-component (or are -z)"),
+    Facet("transmission_beam_near_axis", check_transmission_beam_near_axis,
+          strategy=lambda tier: transmission_cases("sound", beam_near_axis=True),
+          quick=(1, 30), thorough=(4, 200), shrink=False, min_nontrivial=0.2,
+          doc="same oracle, beam a few rounding errors off the axis (or along it, then rotated) without "
+              "staying bit-identical to it (isolates the near-parallel path-length defect in the map)"),
     Facet("transmission_negz", check_transmission, strategy=lambda tier: transmission_cases("negz"),
           quick=(1, 30), thorough=(8, 200), shrink=False, min_nontrivial=0.5,
           doc="same oracle where some axis has a negative z-component (isolates the rotation defect)"),
